@@ -404,7 +404,9 @@ def _info_calls(fn, seed):
             return teneva.cross(lambda J: np.array([tab._chain(Yref, r) for r in J]), Y0, **kw)
         return call, [dict(m=25), dict(nswp=2), dict(e=1e-10, nswp=5, cache={}), dict(nswp=0), dict(m=400, e=1e-12),
                       dict(nswp=3, I_vld=I[:6], y_vld=y[:6], e_vld=1e30), dict(nswp=4, cache={}, m_cache_scale=0),
-                      dict(nswp=2, cb=lambda Y, info, opts: True, dr_max=0, dr_min=0)]
+                      dict(nswp=2, cb=lambda Y, info, opts: True, dr_max=0, dr_min=0),
+                      # set 8: a WARM (non-empty) cache - an empty dict is falsy, a filled one is not (seeded change C10-13)
+                      dict(nswp=3, cache='warm', m_cache_scale=3)]
     if fn == 'als':
         Y0 = gen.tt(N3, 2, seed + 1, 'gauss')
 
@@ -432,8 +434,12 @@ def defaults_info(fn, first, second, seed):
     call, sets = _info_calls(fn, seed)
     d = _default_info(getattr(teneva, fn))
 
+    warm = {}
+    if fn == 'cross':   # the filled cache of an earlier run with a private info: every compared call gets its own copy
+        call(nswp=2, cache=warm, info={})
+
     def fresh(kw):      # cache dictionaries must not be shared between the compared calls
-        return {k: ({} if k == 'cache' else v) for k, v in kw.items()}
+        return {k: ((dict(warm) if v == 'warm' else {}) if k == 'cache' else v) for k, v in kw.items()}
     call(**fresh(sets[first]))
     leftover = {k: v for k, v in d.items() if k != 't'}
     r_def = call(**fresh(sets[second]))
@@ -548,6 +554,9 @@ def cases(tier, seed):
                 if big or (not new and ((first + 2 * second) % 3 != 2 or first == second)) \
                         or (new and (first + second) % 4 == 1):
                     yield 'C10.defaults.info', dict(fn=fn, first=first, second=second, seed=rs())
+    for first in (2, 6, 8, 0):          # a warm cache in the second call, after calls that leave a hit count behind
+        yield 'C10.defaults.info', dict(fn='cross', first=first, second=8, seed=rs())
+    yield 'C10.defaults.info', dict(fn='cross', first=8, second=2, seed=rs())
     for second in range(3):
         for rep in range(3 if big else 1):
             yield 'C10.defaults.info.allow_swap', dict(second=second, seed=rs())
